@@ -66,7 +66,13 @@ unsafe impl<L: Lockable> Lockable for OwnedLockCollection<L> {
 		// It's ok to use self here, because the values in the collection already
 		// cannot be referenced anywhere else. It's necessary to use self as the lock
 		// because otherwise we will be handing out shared references to the child
-		ptrs.push(self)
+		//
+		// An empty collection has no locks. It may also be a zero-sized value
+		// whose address equals that of a neighbouring lock, which the
+		// duplicate checks would then mistake for that lock.
+		if !utils::get_locks_unsorted(&self.data).is_empty() {
+			ptrs.push(self)
+		}
 	}
 
 	unsafe fn guard(&self) -> Self::Guard<'_> {
